@@ -19,13 +19,14 @@ def F(n, d=1):
 
 
 # ------------------------------------------------------------------------------------------------ structures
-def struct(id, comps, pars, links, dt, stock, pops=("p0",), transfers=(), popvals=None, durs=None, jinit=None, glob=True, characs=()):
+def struct(id, comps, pars, links, dt, stock, pops=("p0",), transfers=(), popvals=None, durs=None, jinit=None, glob=True, characs=(), interactions=None, programs=None, effects=None, gate=(0, 1)):
     """comps: [(name, kind[, group])]; pars: [(name, units, T, dom[, timed])]; links: [(src, dst, par|'>')]
     stock: {comp: [values] or [[rows]...] (timed; rows must match)}; transfers: [(name, src_pop, dst_pop, units, dom)]
     popvals: {pop: {par: dom}} overrides; durs: {pop: {group: Fraction}} durations (timed parameter value, constant)
     """
     return dict(id=id, comps=comps, pars=pars, links=links, dt=Fr(dt), stock=stock, pops=list(pops), transfers=list(transfers),
-                popvals=popvals or {}, durs=durs or {}, jinit=jinit or {}, glob=glob, characs=list(characs))
+                popvals=popvals or {}, durs=durs or {}, jinit=jinit or {}, glob=glob, characs=list(characs), interactions=interactions or {},
+                programs=programs or {}, effects=effects or {}, gate=list(gate))
 
 
 def nrows(D, dt):
@@ -62,6 +63,22 @@ def expand(s, mode="r1"):
             flush = par in timedpars
             timed = (not flush) and groups[a] is not None and groups[a] == groups[b]
             links.append(dict(src="%s/%s" % (pop, a), dst="%s/%s" % (pop, b), par=">" if par == ">" else "%s/%s" % (pop, par), timed=timed, flush=flush))
+    # programs: the environment also chooses, per step, each program's capacity (people / year, a capacity overwrite in the instructions)
+    # and whether programs are active (the gate); both are carried as pseudo parameters that precede every real parameter, and a
+    # parameter with an effect row reads them (pfn = <<"prog", ...>>)
+    if s.get("programs"):
+        pseudo = [dict(name="@gate", pop=None, base="@gate", units="gate", T=None, dom=[Fr(x) for x in s["gate"]], timed=True, fn=None, lim=(None, None), pseudo="gate")]
+        for pn, pd in s["programs"].items():
+            pseudo.append(dict(name="@cap/%s" % pn, pop=None, base="@cap/%s" % pn, units="cap", T=None, dom=[Fr(x) for x in pd["caps"]], timed=False, fn=None, lim=(None, None), pseudo="cap", prog=pn))
+        for p_ in pars:
+            eff = s["effects"].get((p_["base"], p_["pop"]))
+            if eff:
+                p_["effect"] = eff
+        pars[:0] = pseudo
+    if len(s["pops"]) > 1 and any(p.get("fn") for p in pars):
+        # the library evaluates a parameter for all populations before the next parameter (cross-population aggregations rely on it)
+        order_ = {p[0]: i for i, p in enumerate(s["pars"])}
+        pars.sort(key=lambda p: (-1, 0) if p.get("pseudo") else (order_[p["base"]], s["pops"].index(p["pop"])))
     for (tname, a, b, units, dom) in s["transfers"]:
         pname = "%s/%s_%s_to_%s" % (a, tname, a, b)
         pars.append(dict(name=pname, pop=a, base="%s_%s_to_%s" % (tname, a, b), units=units, T=Fr(1), dom=[Fr(x) for x in dom], timed=False, transfer=(tname, a, b), fn=None, lim=(None, None)))
@@ -156,27 +173,56 @@ def tla_world(w):
     f.append("jorder |-> %s" % q(str(cidx[j]) for j in w["jorder"]))
     f.append("glob |-> %s" % b(w["struct"].get("glob", True)))
     chars = w["struct"].get("characs", [])
-    chidx = {c[0]: i + 1 for i, c in enumerate(chars)}
-    pop0 = w["pops"][0]
+    pops = w["pops"]
+    # characteristics are per population: index = position in (population-major) list
+    chlist = [(pop, c) for pop in pops for c in chars]
+    chidx = {(pop, c[0]): i + 1 for i, (pop, c) in enumerate(chlist)}
+    parbases = {p["base"] for p in pars}
+    compbases = {c["base"] for c in comps}
+    inter = w["struct"].get("interactions", {})
 
-    def expr(e):
+    def ref(name, pop):
+        if name in parbases:
+            return '<<"par", %d>>' % pidx["%s/%s" % (pop, name)]
+        if name in compbases:
+            return '<<"comp", %d>>' % cidx["%s/%s" % (pop, name)]
+        return '<<"char", %d>>' % chidx[(pop, name)]
+
+    def expr(e, pop):
         k = e[0]
         if k == "num":
             return '<<"num", %s>>' % rat(e[1])
         if k == "par":
-            return '<<"par", %d>>' % pidx["%s/%s" % (pop0, e[1])]
+            return '<<"par", %d>>' % pidx["%s/%s" % (pop, e[1])]
         if k == "comp":
-            return '<<"comp", %d>>' % cidx["%s/%s" % (pop0, e[1])]
+            return '<<"comp", %d>>' % cidx["%s/%s" % (pop, e[1])]
         if k == "char":
-            return '<<"char", %d>>' % chidx[e[1]]
+            return '<<"char", %d>>' % chidx[(pop, e[1])]
         if k == "t":
             return '<<"t">>'
-        return '<<"%s", %s, %s>>' % (k, expr(e[1]), expr(e[2]))
+        if k == "agg":  # ("agg", "SRC_AVG" | "SRC_SUM" | "TGT_AVG" | "TGT_SUM", variable, interaction or None, weighting variable or None)
+            _, kind, var, iname, wvar = e
+            xs = q(ref(var, p_) for p_ in pops)
+            wm = q(q(rat(inter[iname].get((a_, b_), 0)) for b_ in pops) for a_ in pops) if iname else "<<>>"
+            cs = q(ref(wvar, p_) for p_ in pops) if wvar else "<<>>"
+            return '<<"agg", "%s", %s, %s, %s, %d>>' % (kind, xs, wm, cs, pops.index(pop) + 1)
+        return '<<"%s", %s, %s>>' % (k, expr(e[1], pop), expr(e[2], pop))
 
-    f.append("pfn |-> %s" % q((expr(p["fn"]) if p.get("fn") else '<<"env">>') for p in pars))
+    def pfn(p):
+        base = expr(p["fn"], p["pop"]) if p.get("fn") else '<<"env">>'
+        if p.get("effect"):
+            progs = w["struct"]["programs"]
+            items = []
+            for pn, outc in p["effect"]["progs"].items():
+                tc = ",".join(str(cidx["%s/%s" % (tp, tcn)]) for tp in progs[pn]["pops"] for tcn in progs[pn]["comps"])
+                items.append("<<%d, {%s}, %s>>" % (pidx["@cap/%s" % pn], tc, rat(outc)))
+            return '<<"prog", %d, %s, %s, %s>>' % (pidx["@gate"], rat(p["effect"]["base"]), q(items), base)
+        return base
+
+    f.append("pfn |-> %s" % q(pfn(p) for p in pars))
     lim = lambda x: "NoLim" if x is None else rat(x)
     f.append("plim |-> %s" % q("<<%s,%s>>" % (lim(p.get("lim", (None, None))[0]), lim(p.get("lim", (None, None))[1])) for p in pars))
-    f.append("chars |-> %s" % q("[parts |-> {%s}, denom |-> %d]" % (",".join(str(cidx["%s/%s" % (pop0, x)]) for x in c[1]), chidx.get(c[2], 0) if c[2] else 0) for c in chars))
+    f.append("chars |-> %s" % q("[parts |-> {%s}, denom |-> %d]" % (",".join(str(cidx["%s/%s" % (pop, x)]) for x in c[1]), chidx.get((pop, c[2]), 0) if c[2] else 0) for (pop, c) in chlist))
     return "[ " + ",\n  ".join(f) + " ]"
 
 
@@ -299,6 +345,34 @@ def catalogue(tier="quick", mode="r1"):
                     [("rcv", "inf", "rel"), ("sus", "inf", "foi"), ("sus", "rcv", "foi2"), ("inf", "rcv", "rec"), ("inf", "sus", "both"), ("rcv", "sus", "wane"), ("sus", "dead", "mort"), ("inf", "dead", "mort"), ("rcv", "dead", "mort")],
                     F(1, 4), {"sus": [0, 64], "inf": [0, 16, 32], "rcv": [0, 32], "dead": [0]},
                     characs=[("alive", ["sus", "inf", "rcv"], None), ("prev", ["inf"], "alive")], glob=False))
+    # 12c' cross-population aggregations with interaction weights (SRC_POP_AVG weighted by a characteristic, TGT_POP_SUM), feeding
+    #      a transition through a product: two populations, asymmetric weights incl. a zero row
+    S.append(struct("aggsir", [("s", "normal"), ("i", "normal")],
+                    [("beta", "probability", 1, [F(1, 2), 2]),
+                     ("prev", None, None, [0], False, {"fn": ("div", ("comp", "i"), ("max", ("char", "alive"), ("num", 1)))}),
+                     ("avgprev", None, None, [0], False, {"fn": ("agg", "SRC_AVG", "prev", "w", "alive")}),
+                     ("foi", "probability", 1, [0], False, {"fn": ("mul", ("par", "beta"), ("par", "avgprev")), "lim": (0, 3)}),
+                     ("press", "rate", 1, [0], False, {"fn": ("agg", "TGT_SUM", "beta", "w", None)}),
+                     ("tot", None, None, [0], False, {"fn": ("agg", "SRC_SUM", "i", None, None)})],
+                    [("s", "i", "foi"), ("i", "s", "press")],
+                    F(1, 4), {"s": [0, 64], "i": [0, 16]}, pops=("p0", "p1"),
+                    characs=[("alive", ["s", "i"], None)], interactions={"w": {("p0", "p0"): 1, ("p0", "p1"): F(1, 2), ("p1", "p0"): 2, ("p1", "p1"): 0}}, glob=False))
+    # 12c'' programs: the environment chooses each program's capacity and whether programs are active; parameters with an effect row take
+    #       the program outcome at the coverage implied by the same-step size of the targeted compartments (number, rate and probability
+    #       conversions, one- and two-program rows, a limit that binds, a function of a program-targeted parameter)
+    S.append(struct("progsir", [("s", "normal"), ("i", "normal"), ("r", "normal"), ("d", "sink")],
+                    [("beta", "probability", 1, [F(1, 2), 2]),
+                     ("foi", "probability", 1, [0], False, {"fn": ("mul", ("par", "beta"), ("char", "prev")), "lim": (0, F(3, 2))}),
+                     ("rec", "rate", 1, [F(1, 2)], False, {"lim": (None, F(3, 2))}),
+                     ("treat", "number", 1, [0, 8]),
+                     ("mort", "rate", 1, [0, 1])],
+                    [("s", "i", "foi"), ("i", "r", "rec"), ("i", "r", "treat"), ("i", "d", "mort"), ("r", "s", "mort")],
+                    F(1, 4), {"s": [0, 64], "i": [0, 16, 32], "r": [0], "d": [0]},
+                    characs=[("alive", ["s", "i", "r"], None), ("prev", ["i"], "alive")], glob=False,
+                    programs={"P1": dict(pops=["p0"], comps=["i"], caps=[0, 8, 64]), "P2": dict(pops=["p0"], comps=["s", "i"], caps=[0, 32])},
+                    effects={("treat", "p0"): dict(base=0, progs={"P1": F(1, 2)}),
+                             ("rec", "p0"): dict(base=F(1, 8), progs={"P1": F(1, 2), "P2": F(1, 4)}),
+                             ("beta", "p0"): dict(base=F(1, 2), progs={"P2": F(1, 8)})}))
     # 12d two duration groups in one population with an ordinary link between them: the move restarts the clock (it is not a
     #     time-preserving move), the remaining time in the old group is not carried over
     S.append(struct("tcross", [("a", "normal"), ("v", "timed", "d1"), ("w", "timed", "d2"), ("d", "sink")],
@@ -381,6 +455,11 @@ def catalogue_r2(tier="quick"):
                     [("r", "rate", 1, [0, 2]), ("q1", "proportion", None, [0], False, {"fn": ("div", ("comp", "b"), ("num", 64))}), ("back", "probability", 1, [0, 2])],
                     [("a", "k", "r"), ("k", "b", "q1"), ("k", "c", ">"), ("c", "a", "back")],
                     F(1, 4), {"a": [64], "b": [0, 16], "c": [0]}, jinit={"k": [0, 16]}, glob=False))
+    S.append(struct("r2_prog", [("a", "normal"), ("b", "normal")],
+                    [("r", "rate", 1, [F(1, 2)]), ("back", "probability", 1, [0, 2])],
+                    [("a", "b", "r"), ("b", "a", "back")],
+                    F(1, 4), {"a": [64], "b": [0, 64]}, glob=False,
+                    programs={"P1": dict(pops=["p0"], comps=["a"], caps=[0, 16, 128])}, effects={("r", "p0"): dict(base=F(1, 16), progs={"P1": F(1, 4)})}, gate=(1,)))
     S.append(struct("r2_tcross", [("a", "normal"), ("v", "timed", "d1"), ("w", "timed", "d2"), ("d", "sink")],
                     [("vac", "probability", 1, [0, 2]), ("d1", "duration", 1, [F(1, 2)], True), ("d2", "duration", 1, [1], True), ("sw", "probability", 1, [0, 2]), ("mort", "rate", 1, [0])],
                     [("a", "v", "vac"), ("v", "a", "d1"), ("w", "a", "d2"), ("v", "w", "sw"), ("w", "d", "mort")],
@@ -441,7 +520,9 @@ def make_framework(w, extra_pars=None, characs=None):
     for ch in s.get("characs", []):
         crow.append([ch[0], "Ch " + ch[0], ", ".join(ch[1]), ch[2], None, 0, None])
     sheet("Characteristics", crow)
-    rows = [["Code Name", "Display Name", "Format", "Timescale", "Default Value", "Minimum Value", "Maximum Value", "Function", "Databook Page", "Timed"]]
+    rows = [["Code Name", "Display Name", "Format", "Timescale", "Default Value", "Minimum Value", "Maximum Value", "Function", "Databook Page", "Timed", "Targetable"]]
+    targeted = {k[0] for k in s.get("effects", {})}
+
     def render(e):
         k = e[0]
         if k == "num":
@@ -451,6 +532,9 @@ def make_framework(w, extra_pars=None, characs=None):
             return e[1]
         if k == "t":
             return "t"
+        if k == "agg":
+            fname = {"SRC_AVG": "SRC_POP_AVG", "SRC_SUM": "SRC_POP_SUM", "TGT_AVG": "TGT_POP_AVG", "TGT_SUM": "TGT_POP_SUM"}[e[1]]
+            return "%s(%s)" % (fname, ", ".join(x for x in (e[2], e[3], e[4]) if x))
         if k in ("min", "max"):
             return "%s(%s, %s)" % (k, render(e[1]), render(e[2]))
         return "(%s %s %s)" % (render(e[1]), {"add": "+", "sub": "-", "mul": "*", "div": "/"}[k], render(e[2]))
@@ -462,10 +546,12 @@ def make_framework(w, extra_pars=None, characs=None):
         lo, hi = extra.get("lim", (None, None))
         fn = extra.get("fn")
         rows.append([n, "P " + n, units, None if T is None else float(Fr(T)), None if fn else 1, None if lo is None else float(Fr(lo)), None if hi is None else float(Fr(hi)),
-                     render(fn) if fn else None, None if fn else "pa", "y" if timed else "n"])
+                     render(fn) if fn else None, None if fn else "pa", "y" if timed else "n", "y" if n in targeted else "n"])
     for p in extra_pars or []:
-        rows.append(list(p))
+        rows.append(list(p) + ["n"] * (len(rows[0]) - len(p)))
     sheet("Parameters", rows)
+    if s.get("interactions"):
+        sheet("Interactions", [["Code Name", "Display Name", "Default Value"]] + [[n, "I " + n, None] for n in s["interactions"]])
     wb.close()
     return at.ProjectFramework(sc.Spreadsheet(f))
 
@@ -478,7 +564,7 @@ def framework_and_data(w):
     if key not in _FW_CACHE:
         Fw = make_framework(w)
         tnames = sorted({t[0] for t in w["struct"]["transfers"]})
-        D = at.ProjectData.new(Fw, np.array([2000.0]), pops=sc.odict((p, p) for p in w["pops"]), transfers=sc.odict((t, t) for t in tnames) if tnames else 0)
+        D = at.ProjectData.new(Fw, np.array([2000.0]), pops=sc.odict((p, p) for p in w["pops"]), transfers=sc.odict((t, t) for t in tnames) if tnames else 0)  # (interactions come from the framework)
         _FW_CACHE[key] = (Fw, D)
     return _FW_CACHE[key]
 
@@ -506,9 +592,17 @@ def build_parset(w, pv_by_step, tvec):
                 ts.t = [float(t) for t in tvec[:K]]
                 ts.vals = [float(pv_by_step[k][i]) for k in range(K)]
             tr.ts[(a, b)] = ts
+    for iname, wts in w["struct"].get("interactions", {}).items():
+        tdc = [x for x in D.interpops if x.code_name == iname][0]
+        tdc.ts.clear() if hasattr(tdc.ts, "clear") else None
+        for (a, b), v in wts.items():
+            if Fr(v) != 0:
+                ts = TimeSeries(units="N.A.")
+                ts.assumption = float(Fr(v))
+                tdc.ts[(a, b)] = ts
     ps = at.ParameterSet(Fw, D)
     for i, p in enumerate(w["pars"]):
-        if not p.get("transfer") and not p.get("fn"):
+        if not p.get("transfer") and not p.get("fn") and not p.get("pseudo"):
             ts = ps.pars[p["base"]].ts[p["pop"]]
             if K == 1 or p["timed"]:
                 ts.t = []
@@ -519,6 +613,37 @@ def build_parset(w, pv_by_step, tvec):
                 ts.t = [float(t) for t in tvec[:K]]
                 ts.vals = [float(pv_by_step[k][i]) for k in range(K)]
     return Fw, ps
+
+
+def build_programs(w, ps, pv_by_step, tvec):
+    """(ProgramSet, ProgramInstructions) of a world with programs: capacities per step from the pseudo parameters (capacity overwrites,
+    people / year, stepped), programs active from the first time point iff the gate is 1."""
+    import sciris as sc
+    import atomica as at
+    from atomica.programs import Covout
+    from atomica.utils import TimeSeries
+
+    st = w["struct"]
+    if not st.get("programs"):
+        return None, None
+    Fw, D = framework_and_data(w)
+    pg = at.ProgramSet.new(tvec=np.array([2000.0]), progs=sc.odict((pn, pn) for pn in st["programs"]), framework=Fw, data=D)
+    for pn, pd in st["programs"].items():
+        pr = pg.programs[pn]
+        pr.target_pops, pr.target_comps = list(pd["pops"]), list(pd["comps"])
+        pr.spend_data = TimeSeries(assumption=1.0, units="$/year")
+        pr.unit_cost = TimeSeries(assumption=1.0, units="$/person/year")
+    for (par, pop), eff in st["effects"].items():
+        pg.covouts[(par, pop)] = Covout(par, pop, {k: float(Fr(v)) for k, v in eff["progs"].items()}, cov_interaction="random", baseline=float(Fr(eff["base"])))
+    K = len(pv_by_step)
+    names = [p["name"] for p in w["pars"]]
+    gate = float(pv_by_step[0][names.index("@gate")])
+    cap = {}
+    for pn in st["programs"]:
+        i = names.index("@cap/%s" % pn)
+        cap[pn] = TimeSeries([float(t) for t in tvec[:K]], [float(pv_by_step[k][i]) for k in range(K)], units="people/year")
+    ins = at.ProgramInstructions(start_year=float(tvec[0]) if gate else 9999.0, alloc=pg, capacity=cap)
+    return pg, ins
 
 
 def set_state(w, ps, stock):
